@@ -237,6 +237,15 @@ class SCompact:
         self.dtype = dtype
 
 
+class FPInt:
+    """int(v) of an IEEE double v (finite): kept symbolic so that `int(v) == v` becomes the exact
+    integrality test instead of a real/float round trip."""
+
+    def __init__(self, src, term):
+        self.src = src
+        self.term = term
+
+
 class SWhere:
     """np.where(mask)[0]: the ascending index set of a 1-d boolean array (never materialised)."""
 
